@@ -435,7 +435,9 @@ class WSGITask(Task):
                         "a WSGI application (see PEP 3333)" % k
                     )
 
-            self.response_headers.extend(headers)
+            # copy the validated pairs: the application keeps its own objects
+            # and must not be able to change what has been checked above
+            self.response_headers.extend((k, v) for k, v in headers)
 
             # Return a method used to write the response data.
             return self.write
